@@ -1,6 +1,6 @@
 (* Props/C15.v — broken pipes and errors are handled cleanly (logic part; decoder, buffering and file descriptors
    are runtime behaviour observed by the correspondence run only) *)
-From RBQL Require Import Base Value Expr Writers Join Agg Engine Pipe Pipe_Proofs Protocol_Proofs.
+From RBQL Require Import Base Value Expr Writers Join Agg Engine Pipe Pipe_Proofs Protocol_Proofs Prefix_Proofs.
 
 (* CSVWriter: a BrokenPipeError from either stream write of a record makes write() return False and sets
    broken_pipe; finish() then performs no stream operation at all (no write, no flush, no close) *)
@@ -59,6 +59,24 @@ Theorem C15_protocol :
     end.
 Proof. intros expr eval w q hdr A B Hst. exact (run_protocol expr eval w q Hst hdr A B). Qed.
 Print Assumptions C15_protocol.
+
+(* THE PREFIX CLAUSE at the engine level: a consumer (user writer) that refuses its k-th write has been handed, and has
+   accepted, exactly the first k rows of the output it would have received had it never refused - for EVERY query
+   (streaming, sorted, aggregated, distinct, distinct count, unnest, update, join; succeeding or failing), every k and
+   every expression semantics.  Proved by strong locality of the whole run in the writer oracle (Prefix_Proofs.v). *)
+Theorem C15_prefix :
+  forall (expr : Type) (eval : env -> expr -> res val) (q : query expr) hdr A B k,
+    written (o_chain (run eval (fail_at k) q hdr A B)) = firstn k (written (o_chain (run eval yes q hdr A B))).
+Proof. intros expr eval. exact (@run_prefix expr eval). Qed.
+Print Assumptions C15_prefix.
+
+(* ... and a consumer whose first refusal would come after the last row sees exactly the unrefused run *)
+Theorem C15_prefix_complete :
+  forall (expr : Type) (eval : env -> expr -> res val) (q : query expr) hdr A B k,
+    s_nwrites (o_chain (run eval yes q hdr A B)) <= k ->
+    run eval (fail_at k) q hdr A B = run eval yes q hdr A B.
+Proof. intros expr eval. exact (@run_prefix_complete expr eval). Qed.
+Print Assumptions C15_prefix_complete.
 
 (* a query rejected by the static checks never touches the writer *)
 Theorem C15_static_error_silent :
